@@ -9,7 +9,7 @@ use crate::core::{Outcome, Pass, Prop, Src};
 use crate::ensure;
 use crate::model::{view, Stamp};
 use crate::registry::{DynPart, Gen};
-use crate::replicas::{build, gen_plan, gen_pool, plan_json, pool_json, Mode, Pool, ReplicaPlan};
+use crate::replicas::{build, gen_plan, gen_pool, gen_pool_gaps, plan_json, pool_json, Mode, Pool, ReplicaPlan};
 
 const UNUSED_KEY: u64 = 9_999_999;
 
@@ -43,7 +43,8 @@ impl Prop for C05 {
     }
 
     fn gen(&self, src: &mut Src) -> Case {
-        let pool = gen_pool(src, 12);
+        // one case in five leaves the repair clause's precondition (exactness of the diff is claimed for any replica)
+        let pool = if src.chance(1, 5) { gen_pool_gaps(src, 8) } else { gen_pool(src, 12) };
         let plans = [gen_plan(src, &pool, 2), gen_plan(src, &pool, 2)];
         let purge = [src.chance(1, 2), src.chance(1, 2)];
         let chunks = [1 + src.below(3), 1 + src.below(3)];
@@ -66,7 +67,8 @@ impl Prop for C05 {
     }
 
     fn rule(&self) -> &'static str {
-        "two OrSWotSet<2> replicas built as in C03 (Window / Prefix modes), optionally purged; oracle 1 (always): \
+        "two OrSWotSet<2> replicas built as in C03 (Window / Prefix modes) or, one case in five, with arbitrary gaps on an exact \
+         1 h grid (stamps that sit exactly on a cut-off; exactness only), optionally purged; oracle 1 (always): \
          self.diff(peer) lists key k iff peer holds (k,p) and (self holds k older than p, or self holds nothing \
          for k and a will_apply probe on an unused key accepts p), as modification iff live at the peer, with \
          stamp p, nothing else, no duplicates; oracle 2 (unpurged replicas): applying the diff the way the keyspace \
@@ -191,6 +193,13 @@ fn run(case: &Case) -> Outcome {
         }
     }
 
+    if case.pool.mode == Mode::Gaps {
+        let mut labels = vec!["mode_gaps_exactness_only"];
+        if both_kinds {
+            labels.push("modification_and_removal");
+        }
+        return Ok(Pass { nontrivial: both_kinds, labels });
+    }
     // oracle 2: one exchange repairs (precondition of C03: unpurged replicas built by the two modes)
     let mut a2 = a_unpurged.clone();
     let mut b2 = b_unpurged.clone();
@@ -219,6 +228,7 @@ fn run(case: &Case) -> Outcome {
     let mut labels = vec![match case.pool.mode {
         Mode::Window => "mode_window",
         Mode::Prefix => "mode_prefix",
+        Mode::Gaps => "mode_gaps",
     }];
     if purged_any {
         labels.push("purged>=1");
